@@ -187,8 +187,9 @@ def run(ctx, F, crates=None, rule="E-LIN", skip_guard_table=False):
                 ctx.ob(rule + ".drop", key, True,
                        "exhausted iterator: drop dominated by the None edge of Iterator::next on it; " + where)
                 continue
-            if key in ALLOW:
-                ctx.ob(rule + ".drop", key, True, "allow-listed: " + ALLOW[key] + "; " + where)
+            akey = "E-LIN:" + key.split(":", 1)[1]
+            if akey in ALLOW:
+                ctx.ob(rule + ".drop", key, True, "allow-listed: " + ALLOW[akey] + "; " + where)
                 continue
             ok_body = False
             ctx.ob(rule + ".drop", key, False,
